@@ -940,6 +940,76 @@ const queryRule = "After the calls: Size, Keys, Get/Contains/StartsWith/LongestP
 	"Non-trivial = the stored keys contain a key that is a proper prefix of another, or a byte >= 0x80, or a query was an unstored proper prefix or an unstored extension of a stored key. " +
 	"Distinct = enumerated cases (injective encoding, the alphabet is part of the case) + hash-distinct random cases outside the enumerated scope."
 
+// ---------------------------------------------------------------------------
+// bigtrie: thousands of keys in one trie, new first bytes turning up at chosen points of its growth
+
+// BigTrieCase: K keys are put one after the other; key i is the byte ('A' + i/Step) followed by the decimal digits of i, so
+// a first byte the trie has never seen turns up with every Step-th key (Step = 1023: exactly the 1024th key brings one).
+type BigTrieCase struct {
+	K    int `json:"k"`
+	Step int `json:"step"`
+}
+
+func bigTrieProp(c BigTrieCase, r *pbt.R) error {
+	k := 1 + ((c.K-1)%20000+20000)%20000
+	step := 1 + ((c.Step-1)%20000+20000)%20000
+	if k/step > 180 {
+		step = k/180 + 1 // first bytes stay within 'A'..0xff
+	}
+	key := func(i int) string { return string([]byte{byte('A' + i/step)}) + strconv.Itoa(i) }
+	t := trie.New[string, int](queue.New[string]())
+	ctx := fmt.Sprintf("a trie of %d keys put one after the other, key i = byte('A'+i/%d) + decimal(i)", k, step)
+	for i := 0; i < k; i++ {
+		t.Put(key(i), i)
+		if got := t.Size(); got != i+1 {
+			return fmt.Errorf("%s: after the %dth key (%q) Size() = %d", ctx, i+1, key(i), got)
+		}
+		if i%step == 0 || i == k-1 {
+			// the key that brought a new first byte: found at once, and putting it again counts nothing
+			if v, ok := t.Get(key(i)); !ok || v != i || !t.Contains(key(i)) {
+				return fmt.Errorf("%s: right after Put(%q) (the %dth key, the first with that first byte) Get = (%d, %v), Contains = %v", ctx, key(i), i+1, v, ok, t.Contains(key(i)))
+			}
+			t.Put(key(i), i)
+			if got := t.Size(); got != i+1 {
+				return fmt.Errorf("%s: putting the %dth key %q a second time changed Size() to %d", ctx, i+1, key(i), got)
+			}
+		}
+	}
+	for i := 0; i < k; i++ {
+		if v, ok := t.Get(key(i)); !ok || v != i {
+			return fmt.Errorf("%s: Get(%q) = (%d, %v), want (%d, true)", ctx, key(i), v, ok, i)
+		}
+	}
+	for b := 0; b <= (k-1)/step; b++ {
+		p := string([]byte{byte('A' + b)})
+		want := step
+		if (b+1)*step > k {
+			want = k - b*step
+		}
+		q, err := t.StartsWith(p)
+		if err != nil || q.Size() != want {
+			return fmt.Errorf("%s: StartsWith(%q) lists %d keys (error %v), want %d", ctx, p, q.Size(), err, want)
+		}
+		if lp, err := t.LongestPrefix(key(b*step) + "x"); err != nil || lp != key(b*step) {
+			return fmt.Errorf("%s: LongestPrefix(%q) = (%q, %v), want %q", ctx, key(b*step)+"x", lp, err, key(b*step))
+		}
+	}
+	q, _ := t.Keys()
+	if q.Size() != k {
+		return fmt.Errorf("%s: Keys() lists %d keys", ctx, q.Size())
+	}
+	prev := ""
+	for i := 0; i < k; i++ {
+		cur, err := q.Dequeue()
+		if err != nil || (i > 0 && prev >= cur) {
+			return fmt.Errorf("%s: Keys() item %d is (%q, %v) after %q: not ascending", ctx, i, cur, err, prev)
+		}
+		prev = cur
+	}
+	r.NonTrivialIf(k >= 1024, ">= 1024 keys")
+	return nil
+}
+
 func TestProp(t *testing.T) {
 	pbt.Run(t, "C09",
 		&pbt.Check[Case]{
@@ -958,6 +1028,17 @@ func TestProp(t *testing.T) {
 				"swept with all 14 queries of length <= 3. Random: up to 60 (150) calls with keys over all 256 byte values, over 0x80..0xff, or built from UTF-8 encoded runes cut at arbitrary byte positions. " + queryRule,
 			Enum: enumBytes, Gen: genBytes, Prop: prop, OutOfEnum: outOfEnumBytes,
 			RapidQuick: 1000, RapidThorough: 15000,
+		},
+		&pbt.Check[BigTrieCase]{
+			Name: "bigtrie",
+			Rule: "ONE trie grows to 1000..20000 keys; key i is the byte 'A'+i/step followed by the decimal digits of i, so a first byte the trie has never seen arrives with every step-th key (step 1023: exactly the 1024th key). Size after every Put; the key that brought a new first byte is found at once and putting it again counts nothing; at the end Get of every key, StartsWith of every first byte (count), LongestPrefix, Keys (count, ascending). " +
+				"Fixed: 1030 keys with step 1023 and 1024, 4100 with 4095 and 4096, 2000 with 1, 7 and 64; random: more. Non-trivial = at least 1024 keys.",
+			Gen: func(s pbt.Src, _ bool) BigTrieCase {
+				return BigTrieCase{K: pbt.Pick(s, 300, 1025, 1100, 2049, 4097, 5000, 9000), Step: pbt.Pick(s, 1, 2, 7, 63, 64, 255, 256, 511, 512, 1023, 1024, 2047, 2048, 4095, 4096)}
+			},
+			Prop: bigTrieProp, OutOfEnum: func(BigTrieCase, bool) bool { return true },
+			Fixed:      []BigTrieCase{{1030, 1023}, {1030, 1024}, {4100, 4095}, {4100, 4096}, {2000, 1}, {2000, 7}, {2000, 64}, {1030, 511}},
+			RapidQuick: 6, RapidThorough: 80,
 		},
 	)
 }
